@@ -1170,7 +1170,7 @@ func verifPartitionSMF(m Message) (n int) {
 //@ ensures [H] len(w.currentChunk.data) <= old(len(w.currentChunk.data)) + len(m) + 11
 //@ ensures [P:C03] forall i int :: 0 <= i && i < old(len(w.currentChunk.data)) ==> w.currentChunk.data[i] == old(w.currentChunk.data[i])
 //@ ensures [P:C03] forall j int :: old(len(w.currentChunk.data)) <= j && j < old(len(w.currentChunk.data)) + vlqLen(old(w.deltatime)) ==> w.currentChunk.data[j] == vlqByte(old(w.deltatime), j - old(len(w.currentChunk.data)))
-//@ ensures [P:C01] (!old(isSx(m)) && !old(elide(w, m))) ==> forall j int :: old(len(w.currentChunk.data)) + vlqLen(old(w.deltatime)) <= j && j < len(w.currentChunk.data) ==> w.currentChunk.data[j] == m[j - old(len(w.currentChunk.data)) - vlqLen(old(w.deltatime))]
+//@ ensures [P:C01] (!old(isSx(m)) && !old(elide(w, m))) ==> forall i int :: 0 <= i && i < len(m) ==> w.currentChunk.data[old(len(w.currentChunk.data)) + vlqLen(old(w.deltatime)) + i] == m[i]
 //@ ensures [P:C03] w.runningWriter != nil ==> wrs(w) == (old(isCh(m)) ? m[0] : 0)
 
 // writeChunkTo: emits the track chunk "MTrk" <length> <body> to the writer's own counting destination and
